@@ -98,13 +98,13 @@ CHECKS = {
     "C02": dict(
         level="translation_validation", design="4/C02",
         technique="translation validation: Lean 4 kernel-checked equivalence checker (check_sound) on the real decompiler's output (parsed text vs input; recompiled text vs input), per input",
-        text="For every generated well-formed routine set (checked by the Lean machine: every path ends, no Jump-only cycle) the real decompiler's text is parsed with the repo's parser, given meaning by the Lean source semantics and validated against the input on the Lean SSB machine by the proven checker; the text is also compiled with the real compiler and validated machine-vs-machine; routine tables are compared. No forall-inputs statement about the decompiler (igraph heuristics) is claimed. Input classes on which the pinned decompiler is wrong are known findings identified by a shape predicate of the input.",
-        note=TV_NOTE + "The decompiler is not modelled. String parameters are kept inside C04's guard. A dungeon-mode number may come back as its constant."),
+        text="For every generated well-formed routine set (checked by the Lean machine: every path ends, no Jump-only cycle) the real decompiler's text is parsed with the repo's parser, given meaning by the Lean source semantics and validated against the input on the Lean SSB machine by the proven checker; the text is also compiled with the real compiler and validated machine-vs-machine; routine tables are compared. The front phases of the decompiler ARE modelled and proved for all inputs (lean/ESV/Decomp, ESV.DecompFront.resolve_preserves: the label resolver's output behaves like the input routine set; baseGraph_preserves: the base control-flow graph of SsbGraphMinimizer.__init__ is the control flow of the routine; optimize_paths is modelled and tied) and tied to the running code exactly on every generated routine set (labels, interleaved routines, vertex and edge lists with flow levels and loop flags, exception classes; igraph's incident-edge order re-measured); the real intermediate graphs are also validated per input by the proven checker. For the heuristic rewriting passes behind them (build_branches ... remove_label_markers, the writers) no forall-inputs statement is claimed. Input classes on which the pinned decompiler is wrong are known findings identified by a shape predicate of the input.",
+        note=TV_NOTE + "Of the decompiler, label resolution, base graph construction and optimize_paths are modelled; the heuristic graph rewriting behind them and the writers are not. String parameters are kept inside C04's guard. A dungeon-mode number 0..3 may come back as its constant."),
     "C06": dict(
         level="other", design="4/C06",
-        technique="Lean 4 proof of the fallback path (SsbScript round trip theorem ESV.C07.ssbscript_roundtrip) + exploration of totality on generated well-formed routine sets with op-for-op comparison of every fallback through the real compiler",
-        text="Proof: the fallback text is the SsbScript decompiler's output; its exactness (compile(decompile x) reproduces x op for op) and the absence of exceptions on well-formed input are kernel-checked theorems over all routine sets. Exploration: that convert() answers at all (Python exception flow through igraph-based passes) cannot be a theorem here; it is explored on compiler-shaped and random well-formed routine sets (irreducible loops, jumps into blocks, jump-only routines), and each fallback produced is checked for the marker line and compiled back with the real ExplorerScript compiler.",
-        note=COMMON_NOTE + "Totality of the structured path is explored, not proved."),
+        technique="Lean 4 proofs of every part of convert() that can raise past its try: label resolution never raises on well-formed routine sets (ESV.DecompFront.resolve_total, model tied exactly to the running code) and the fallback path is total and exact (ESV.C07.decompile_ok, ssbscript_roundtrip); the shape of convert() (what runs before the try, `except Exception`, handler = SsbScript decompiler) is read from the current source and compared with the pinned reading; termination and the structured path are explored on generated well-formed routine sets with op-for-op comparison of every fallback through the real compiler",
+        text="Proof: (1) the only code of ExplorerScriptSsbDecompiler.convert that runs outside its try block is the label resolver (OpsLabelJumpToResolver / process_op_for_jump): it is modelled statement by statement (lean/ESV/Decomp/Model.lean; labels, interleaved routines and exception classes compared exactly with the running code on every generated routine set), and resolve_total shows that it raises nothing on ANY well-formed routine set (offsets increasing from 0, every jump-carrying op has an existing target as last parameter); resolve_preserves / baseGraph_preserves show in addition that the resolver's output and the base control-flow graph (SsbGraphMinimizer.__init__, also modelled and tied exactly, igraph edge order re-measured every run) behave like the input. Everything after it sits in `try: ... except Exception:` whose handler returns SsbScriptSsbDecompiler(...).convert(prefix) - that shape is extracted from the current source on every run and compared with a pinned reading. (2) the fallback text is the SsbScript decompiler's output; its exactness (compile(decompile x) reproduces x op for op) and the absence of exceptions on well-formed input are kernel-checked theorems over all routine sets. Exploration: that convert() answers at all (Python exception flow through igraph-based passes) cannot be a theorem here; it is explored on compiler-shaped and random well-formed routine sets (irreducible loops, jumps into blocks, jump-only routines), and each fallback produced is checked for the marker line and compiled back with the real ExplorerScript compiler.",
+        note=COMMON_NOTE + "Not a theorem: termination of the igraph-based passes inside the try (explored with per-case time limits), exceptions that are not subclasses of Exception (none is raised by the code: KeyboardInterrupt/SystemExit only), and deepcopy of the input."),
     "C09": dict(
         level="other", design="4/C09",
         technique="Lean 4 proof of the writer protocol (line accounting and entry positions for all call sequences) tied to the code by replaying every recorded real call sequence; per-input validation of op-to-statement attribution through recompilation and the proven checker",
@@ -118,7 +118,7 @@ CHECKS = {
     "C14": dict(
         level="proof", design="4/C14",
         technique="Lean 4 theorems about a hand-written model of source_map.py (serialize/deserialize/rewrite_offsets) + exact model-vs-implementation correspondence + property oracle on real objects",
-        text="Kernel-checked theorems for all source maps with dict-like key uniqueness and all injective offset mappings: deserialize∘serialize = id (all four tables, every field), re-serialisation identical, equality after round trip, rewrite_offsets moves exactly the entries whose op is in the mapping and maps each return address to the new offset of the next surviving op. The model is compared with the real code on every run.",
+        text="Kernel-checked theorems for all source maps with dict-like key uniqueness and all injective offset mappings: deserialize∘serialize = id (all four tables, every field), re-serialisation identical, equality after round trip, rewrite_offsets moves exactly the entries whose op is in the mapping and maps each return address to the new offset of the next surviving op. The model is compared with the real code on every run; operation sequences on ONE object (serialize / pretty / str / rewrite_offsets / store-and-read-back / ==, 2-7 steps) must answer at every step like a fresh object with the same entries, which is the functional reading the theorems state.",
         note=COMMON_NOTE + "Python's json module round trip on ints/strings/null/lists/objects is assumed; ill-typed JSON documents are out of scope."),
     "C17": dict(
         level="proof", design="4/C17",
